@@ -316,6 +316,8 @@ CFG_SUBJECTS = [
     [(0, [0]), (0, [2])],               # S -> S | a
     [(0, [1]), (1, [2, 1, 3]), (1, [])],  # S -> A ; A -> a A b | eps
     [(0, [2]), (1, [3])],               # S -> a ; A -> b (unreachable)
+    [(0, [2]), (0, [1, 1]), (1, [])],   # S -> a | A A ; A -> eps   (generating early, nullable through the 2nd rule)
+    [(0, [1, 3]), (1, [1, 1]), (1, [2])],  # S -> A b ; A -> A A | a  (infinite)
 ]
 
 
@@ -393,7 +395,7 @@ def cfg_battery(g):
 
 def c19_cfg(subject: int, ops: H3, k: int) -> bool:
     """
-    pre: 0 <= subject < 5 and 1 <= k <= 3
+    pre: 0 <= subject < 7 and 1 <= k <= 3
     pre: all(0 <= ops[i] < NCFGOPS and (i < k or ops[i] == 0) for i in range(3))
     pre: pinned(subject=subject, k=k, o0=ops[0], o1=ops[1])
     post: _
@@ -504,7 +506,7 @@ CONDS = [
                    "mutation of the automaton returned by to_epsilon_nfa()", "thorough": "up to 3 calls"},
          FUNCS, RULE, assumptions=ASSUME),
     Cond("C19", c19_cfg, _sh(len(CFG_SUBJECTS), len(CFG_OPS)),
-         {"quick": "5 grammars x histories of 1-2 calls out of 20 ops (cached queries, normal form, intersections "
+         {"quick": "7 grammars x histories of 1-2 calls out of 20 ops (cached queries, normal form, intersections "
                    "with a fresh / shared / mutated DFA, g and g.reverse() against the same automaton, to_pda.to_cfg)",
           "thorough": "up to 3 calls"},
          FUNCS, RULE, assumptions=ASSUME),
